@@ -6,7 +6,7 @@ import io
 import zlib
 
 _open = []
-FORMS = ('path', 'handle', 'wrapper')
+FORMS = ('path', 'handle', 'wrapper', 'linkpath')
 
 
 @atexit.register
@@ -35,9 +35,11 @@ def arg(path, k=None):
     if k is None:
         with open(path, 'rb') as f:
             k = zlib.crc32(f.read(4096))
-    form = FORMS[k % 3]
+    form = FORMS[k % len(FORMS)]
     if form == 'path':
         return path
+    if form == 'linkpath':
+        return via_link(path)
     h = open(path, 'rb')
     if form == 'wrapper':
         h = FileLike(h)
@@ -45,6 +47,25 @@ def arg(path, k=None):
     while len(_open) > 40:
         _open.pop(0).close()
     return h
+
+
+_links = {}
+
+
+def via_link(path):
+    """the same file named through a symbolic link to a folder and `..`:  <elsewhere>/current/../<name>, where
+    `current` links to a sub-folder of the file's folder.  The operating system resolves the link first (so this names
+    the file); collapsing `current/..` as text would name <elsewhere>/<name> instead."""
+    import os
+    import tempfile
+    d = os.path.dirname(os.path.abspath(path))
+    if d not in _links:
+        real_sub = os.path.join(d, '_sub')
+        os.makedirs(real_sub, exist_ok=True)
+        elsewhere = tempfile.mkdtemp(prefix='lnk_', dir=d)
+        os.symlink(real_sub, os.path.join(elsewhere, 'current'))
+        _links[d] = os.path.join(elsewhere, 'current', '..')
+    return os.path.join(_links[d], os.path.basename(path))
 
 
 def form_of(x):
